@@ -274,8 +274,8 @@ theorem gunzip_fallback (name : Path) (f : FileOracle) (ho : f.canOpen = true) (
 /-- Without the rewind the bytes consumed by the probe would be lost: the seek is what the theorem
     above rests on (`readOutcomeG false` = the code with the `Seek` removed). -/
 theorem gunzip_fallback_needs_seek :
-    readOutcomeG false ⟨true, false, [104, 105, 10], false, 2, [], false⟩ true = .ok [10] ∧
-    readOutcomeG true ⟨true, false, [104, 105, 10], false, 2, [], false⟩ true = .ok [104, 105, 10] := by
+    readOutcomeG false ⟨true, false, [104, 105, 10], 2, [], false⟩ true = .ok [10] ∧
+    readOutcomeG true ⟨true, false, [104, 105, 10], 2, [], false⟩ true = .ok [104, 105, 10] := by
   decide
 
 /-- `-z` on gzip content delivers what the gzip reader yields; a stream that fails (truncated, corrupt,
@@ -355,8 +355,8 @@ example : (∀ p l, exFs.glob p = .found l → l.Nodup) ∧ (∀ p, (exFs.walk p
 /-- three inputs — healthy, missing, gzip cut after the first line and a half — give 2 read errors, exit 2,
     and the healthy input's lines plus the decoded prefix of the cut one. -/
 def exFiles (p : Path) : FileOracle :=
-  if p == pOk then ⟨true, false, [108, 49, 10, 108, 50, 10] /- "l1\nl2\n" -/, false, 6, [], false⟩
-  else if p == pCut then ⟨true, false, [31, 139, 8], true, 0, [103, 49, 10, 103] /- "g1\ng" -/, true⟩
+  if p == pOk then ⟨true, false, [108, 49, 10, 108, 50, 10] /- "l1\nl2\n" -/, 6, [], false⟩
+  else if p == pCut then ⟨true, false, [31, 139, 8, 0, 0, 0, 0, 0, 0, 255, 75, 55] /- a gzip header and the first bytes of a stream -/, 0, [103, 49, 10, 103] /- "g1\ng" -/, true⟩
   else FileOracle.missing
 
 example :
